@@ -387,6 +387,9 @@ def run(ctx: Ctx, rep: Report, tier: str):
     from rules.C08 import C08 as _C08c
     from rules.common import alias as _alias_c
     _alias_c(rep, ["C08.R5"], "C06.R17", "an entry whose row could not be written stays dirty: storage_commit empties the dirty set only after every entry was written (C08.R5), so a cursor saved later never vouches for an entry that is not in storage", 1, lambda: _C08c(ctx, rep).r5(), keep=lambda i: i.key.startswith("storage_commit|"))
+    from rules.common import saved_cursor_is_the_consumed_position
+    rep.rule("C06.R18", "the persisted event cursor is the position up to which events were consumed (provider.current_cursor), never the end of the provider's feed", 1)
+    section(rep, lambda: saved_cursor_is_the_consumed_position(ctx, rep, "C06.R18"))
     from rules.decisions import decision_table, table_sites
     rep.rule("C06.DT", "decision table (rules/decisions.json) of loading persisted state, forgetting it, and CloudSync construction / walking: for every function and every action shape (an impure call with the parameters it passes, a store to an "
              "attribute or item, a delete, a returned constant, a yield, a raise) the set of states - over the function's guard atoms - in which the action is taken "
